@@ -1638,7 +1638,7 @@ def idx_list_to_index_array(idx_list):
         arr = np.arange(shape_to_len(idx._src_shape)).reshape(idx._src_shape)
         for i in range(len(idx_list)):
             arr = idx_list[i].indexed_val(arr)
-        return arr
+        return np.atleast_1d(arr).ravel()
 
 
 def apply_idx_list(arr, idx_list):
